@@ -189,7 +189,7 @@ def pumped_texts(tier, length):
             PUMP_WIDE if tier != 'quick' else PUMP_CORE, repeat=3):
         units.add(''.join(t))
     if tier != 'quick':
-        for t in itertools.product(PUMP_CORE, repeat=4):
+        for t in itertools.product(PUMP_CORE[:6], repeat=4):
             units.add(''.join(t))
     out = []
     for u in sorted(units):
